@@ -1145,7 +1145,8 @@ Proof.
     assert (Hen : enumerates (holds d) outer (term_vars target ++ slits_vars body) s body sols).
     { eapply agg_enumerates; eauto. }
     assert (o = Some z') as ->.
-    { eapply agg_result_complete; eauto. destruct k, t; simpl in *; auto; discriminate. }
+    { apply (agg_result_complete (holds d) outer s target body k t sols es' zs' z' o Hen Hen' Hz' Ha'); [|exact Ho].
+      destruct k, t; simpl in *; auto; congruence. }
     now apply bind_var_complete.
   - apply step_range_inv in H as (f & t' & vs & zs & Hf & Ht & Hst & Hr & ->).
     apply sat_range_inv in Hsat as (vf & vt & vs' & zs' & z & Df & Dt & Dst & Hr' & Hz & Hl).
@@ -1158,3 +1159,714 @@ Proof.
     destruct (bind_var_complete e x (VNum z) s He Hl) as (e' & Hin & Hx).
     exists e'. split; [|exact Hx]. apply in_flat_map. eauto.
 Qed.
+
+(** * (c), (d) Conjunctions of literals: [solve] *)
+Lemma lit_binds_outer l : incl (lit_binds l) (lit_outer_vars l).
+Proof. destruct l; simpl; try apply incl_refl. apply slit_binds_vars. Qed.
+
+Definition env_ok (outer B : list nat) (e : env) : Prop :=
+  (forall y, In y B -> bound e y) /\ (forall y, bound e y -> In y outer).
+
+Lemma env_ok_step outer B l e e' :
+  incl (lit_outer_vars l) outer -> env_ok outer B e -> ext e e' -> bound_after e e' (lit_binds l) ->
+  env_ok outer (lit_binds l ++ B) e'.
+Proof.
+  intros Hi [HB Ho] Hx Hb. split.
+  - intros y Hy. apply Hb. apply in_app_or in Hy as [Hy|Hy]; auto.
+  - intros y Hy. apply Hb in Hy as [Hy|Hy]; auto. apply Hi. now apply lit_binds_outer.
+Qed.
+
+Lemma solve_sound_gen d outer ls : forall B es0 es e',
+  db_nodup d -> scoped outer B ls = true -> incl (flat_map lit_outer_vars ls) outer ->
+  (forall e0, In e0 es0 -> env_ok outer B e0) ->
+  solve d ls es0 = Ok es -> In e' es ->
+  exists e0, In e0 es0 /\ ext e0 e' /\ bound_after e0 e' (flat_map lit_binds ls) /\
+             forall s, ext e' s -> Forall (hl d outer s) ls.
+Proof.
+  induction ls as [|l ls IH]; intros B es0 es e' Hnd Hsc Hi Hok H Hin; simpl in H.
+  - inversion H; subst. exists e'. split; [auto|]. split; [apply ext_refl|]. split; [apply bound_after_refl|].
+    constructor.
+  - apply bind_ok in H as (es1 & H1 & H). simpl in Hsc. apply andb_true_iff in Hsc as [Hl Hsc].
+    simpl in Hi. apply incl_app_inv in Hi as [Hi1 Hi2].
+    assert (Hok1 : forall e1, In e1 es1 -> env_ok outer (lit_binds l ++ B) e1).
+    { intros e1 Hin1. apply (flat_map_res_in _ _ _ H1) in Hin1 as (e0 & x & Hin0 & Hst & Hx).
+      destruct (Hok _ Hin0) as [HB Ho].
+      destruct (step_lit_sound _ _ _ _ _ _ _ Hnd Hl HB Ho Hst Hx) as (Hx0 & Hb0 & _).
+      eapply env_ok_step; eauto. }
+    destruct (IH _ _ _ _ Hnd Hsc Hi2 Hok1 H Hin) as (e1 & Hin1 & Hx1 & Hb1 & Hs1).
+    apply (flat_map_res_in _ _ _ H1) in Hin1 as (e0 & x & Hin0 & Hst & Hx).
+    destruct (Hok _ Hin0) as [HB Ho].
+    destruct (step_lit_sound _ _ _ _ _ _ _ Hnd Hl HB Ho Hst Hx) as (Hx0 & Hb0 & Hs0).
+    exists e0. split; [auto|]. split; [eapply ext_trans; eauto|]. split.
+    + simpl. eapply bound_after_trans; eauto.
+    + intros s Hs. constructor; [|auto]. apply Hs0. eapply ext_trans; eauto.
+Qed.
+
+Lemma solve_complete_gen d outer ls : forall B es0 es e0 s,
+  db_nodup d -> scoped outer B ls = true -> forallb lit_det ls = true ->
+  incl (flat_map lit_outer_vars ls) outer -> env_ok outer B e0 ->
+  solve d ls es0 = Ok es -> In e0 es0 -> ext e0 s -> Forall (hl d outer s) ls ->
+  exists e', In e' es /\ ext e' s.
+Proof.
+  induction ls as [|l ls IH]; intros B es0 es e0 s Hnd Hsc Hdet Hi Hok H Hin He Hsat; simpl in H.
+  - inversion H; subst. eauto.
+  - apply bind_ok in H as (es1 & H1 & H). inversion Hsat; subst.
+    simpl in Hsc. apply andb_true_iff in Hsc as [Hl Hsc].
+    simpl in Hdet. apply andb_true_iff in Hdet as [Hd Hdet].
+    simpl in Hi. apply incl_app_inv in Hi as [Hi1 Hi2]. destruct Hok as [HB Ho].
+    destruct (flat_map_res_ok _ _ _ H1 _ Hin) as (x & Hx).
+    destruct (step_lit_complete _ _ _ _ _ _ _ Hnd Hl Hd HB Ho Hx He H3) as (e1 & Hin1 & He1).
+    destruct (step_lit_sound _ _ _ _ _ _ _ Hnd Hl HB Ho Hx Hin1) as (Hx0 & Hb0 & _).
+    eapply (IH (lit_binds l ++ B) es1 es e1 s); eauto.
+    + eapply env_ok_step; eauto. split; auto.
+    + apply (flat_map_res_in _ _ _ H1). eauto.
+Qed.
+
+(** (c) soundness of [solve]. [Stuck] (the literal order does not ground a variable before its
+    use) and [Undef] (an operation left the defined value domain) are excluded by [= Ok es]. *)
+Theorem solve_sound d outer ls e0 es :
+  db_nodup d -> scoped outer [] ls = true -> incl (flat_map lit_outer_vars ls) outer ->
+  (forall y, bound e0 y -> In y outer) ->
+  solve d ls [e0] = Ok es ->
+  forall e, In e es -> ext e0 e /\ Forall (sat_lit (holds d) (holds d) outer e) ls.
+Proof.
+  intros Hnd Hsc Hi Ho H e Hin.
+  destruct (solve_sound_gen d outer ls [] [e0] es e Hnd Hsc Hi) as (e0' & [<-|[]] & Hx & _ & Hs); auto.
+  - intros e1 [<-|[]]. split; [intros y []|exact Ho].
+  - split; [exact Hx|]. apply Hs. apply ext_refl.
+Qed.
+
+(** (d) completeness of [solve]: a satisfying valuation is found up to extension *)
+Theorem solve_complete d outer ls e0 es :
+  db_nodup d -> scoped outer [] ls = true -> forallb lit_det ls = true ->
+  incl (flat_map lit_outer_vars ls) outer -> (forall y, bound e0 y -> In y outer) ->
+  solve d ls [e0] = Ok es ->
+  forall s, ext e0 s -> Forall (sat_lit (holds d) (holds d) outer s) ls ->
+  exists e, In e es /\ ext e s.
+Proof.
+  intros Hnd Hsc Hdet Hi Ho H s He Hsat.
+  eapply (solve_complete_gen d outer ls [] [e0] es e0 s); eauto.
+  - split; [intros y []|exact Ho].
+  - simpl; auto.
+Qed.
+
+(** * (e) One clause *)
+Lemma heads_in args es ts : heads args es = Ok ts ->
+  forall t, In t ts <-> exists e, In e es /\ eval_terms e args = Ok t.
+Proof.
+  revert ts; induction es as [|e es IH]; intros ts H t; simpl in H.
+  - inversion H. split; [intros []|intros (e & [] & _)].
+  - apply bind_ok in H as (t0 & Ht0 & H). apply bind_ok in H as (r & Hr & H). inversion H; subst; clear H.
+    simpl. rewrite (IH _ Hr). split.
+    + intros [<-|(e' & He' & Ht)]; [exists e; auto | exists e'; auto].
+    + intros (e' & [<-|He'] & Ht); [left; congruence | right; eauto].
+Qed.
+Lemma heads_ok args es ts : heads args es = Ok ts -> forall e, In e es -> exists t, eval_terms e args = Ok t.
+Proof.
+  revert ts; induction es as [|e es IH]; intros ts H e' He'; [destruct He'|]. simpl in H.
+  apply bind_ok in H as (t0 & Ht0 & H). apply bind_ok in H as (r & Hr & H).
+  destruct He' as [<-|He']; eauto.
+Qed.
+
+Lemma clause_outer_incl c : incl (flat_map lit_outer_vars (c_body c)) (clause_outer c).
+Proof. unfold clause_outer. apply incl_appr, incl_refl. Qed.
+Lemma bound_nil y : ~ bound [] y.
+Proof. unfold bound. simpl. tauto. Qed.
+
+Lemma fire_clause_sound d c ts :
+  db_nodup d -> clause_ok c = true -> fire_clause d c = Ok ts ->
+  forall t, In t ts -> fires (holds d) (holds d) c t.
+Proof.
+  intros Hnd Hok H t Hin. unfold fire_clause in H. apply bind_ok in H as (es & Hes & H).
+  apply (heads_in _ _ _ H) in Hin as (e & He & Ht). exists e. split.
+  - eapply (solve_sound d (clause_outer c) (c_body c) []); eauto using clause_outer_incl.
+    intros y Hy. now apply bound_nil in Hy.
+  - now apply eval_terms_den.
+Qed.
+Lemma fire_clause_complete d c ts :
+  db_nodup d -> clause_ok c = true -> clause_det c = true -> fire_clause d c = Ok ts ->
+  forall t, fires (holds d) (holds d) c t -> In t ts.
+Proof.
+  intros Hnd Hok Hdet H t (s & Hsat & Hd). unfold fire_clause in H. apply bind_ok in H as (es & Hes & H).
+  destruct (solve_complete d (clause_outer c) (c_body c) [] es Hnd Hok Hdet (clause_outer_incl c)) with (s := s)
+    as (e & He & Hx); auto using ext_nil.
+  { intros y Hy. now apply bound_nil in Hy. }
+  destruct (heads_ok _ _ _ H e He) as (t' & Ht').
+  pose proof (den_eval_terms e s (c_args c) t Hx Hd) as Ag. rewrite Ht' in Ag. simpl in Ag. subst t'.
+  apply (heads_in _ _ _ H). eauto.
+Qed.
+(** the tuples returned are exactly the rule instances *)
+Theorem fire_clause_spec d c ts :
+  db_nodup d -> clause_ok c = true -> clause_det c = true -> fire_clause d c = Ok ts ->
+  forall t, In t ts <-> fires (holds d) (holds d) c t.
+Proof.
+  intros Hnd Hok Hdet H t. split; [eapply fire_clause_sound | eapply fire_clause_complete]; eauto.
+Qed.
+
+(** * Databases *)
+Lemma rel_of_db_add d r t r' :
+  rel_of (db_add d r t) r' = if Nat.eqb r' r then rel_of d r ++ [t] else rel_of d r'.
+Proof.
+  induction d as [|[r0 ts] d IH]; simpl.
+  - destruct (Nat.eqb r' r); reflexivity.
+  - destruct (Nat.eqb r r0) eqn:E; simpl.
+    + apply Nat.eqb_eq in E. subst r0. destruct (Nat.eqb r' r); reflexivity.
+    + rewrite IH. destruct (Nat.eqb r' r0) eqn:E0; [|reflexivity].
+      apply Nat.eqb_eq in E0. subst r0. destruct (Nat.eqb r' r) eqn:E1; [|reflexivity].
+      apply Nat.eqb_eq in E1. subst. rewrite Nat.eqb_refl in E. discriminate.
+Qed.
+
+Lemma add_new_spec r ts : forall d ch d' ch',
+  add_new d r ts ch = (d', ch') ->
+  (forall r', r' <> r -> rel_of d' r' = rel_of d r') /\
+  (forall t, In t (rel_of d' r) <-> In t (rel_of d r) \/ In t ts) /\
+  (NoDup (rel_of d r) -> NoDup (rel_of d' r)) /\
+  (ch = true -> ch' = true) /\
+  (ch' = false -> d' = d /\ forall t, In t ts -> In t (rel_of d r)).
+Proof.
+  induction ts as [|t ts IH]; intros d ch d' ch' H; simpl in H.
+  - inversion H; subst. split; [auto|]. split; [intro t0; simpl; tauto|]. split; [auto|]. split; [auto|].
+    intros _. split; [reflexivity|intros t0 []].
+  - destruct (mem_tuple t (rel_of d r)) eqn:M.
+    + apply mem_tuple_spec in M. destruct (IH _ _ _ _ H) as (H1 & H2 & H3 & H4 & H5).
+      split; [exact H1|]. split; [|split; [exact H3|split; [exact H4|]]].
+      * intro t'. rewrite H2. simpl. split; [tauto|]. intros [Ht|[<-|Ht]]; auto.
+      * intro Hc. destruct (H5 Hc) as [-> H6]. split; [reflexivity|]. intros t' [<-|Ht']; auto.
+    + destruct (IH _ _ _ _ H) as (H1 & H2 & H3 & H4 & H5).
+      assert (Hr : rel_of (db_add d r t) r = rel_of d r ++ [t]) by (rewrite rel_of_db_add, Nat.eqb_refl; reflexivity).
+      split; [|split; [|split; [|split]]].
+      * intros r' Hr'. rewrite (H1 r' Hr'), rel_of_db_add. apply Nat.eqb_neq in Hr'. now rewrite Hr'.
+      * intro t'. rewrite H2, Hr, in_app_iff. simpl. tauto.
+      * intro Hnd. apply H3. rewrite Hr.
+        apply Permutation_NoDup with (l := t :: rel_of d r).
+        -- apply Permutation_cons_append.
+        -- constructor; [|exact Hnd]. intro Hin. apply mem_tuple_spec in Hin. congruence.
+      * intros _. now apply H4.
+      * intro Hc. specialize (H4 eq_refl). congruence.
+Qed.
+
+Lemma round_spec d0 cs : forall d ch d' ch',
+  round_clauses d0 d cs ch = Ok (d', ch') ->
+  isub (holds d) (holds d') /\
+  (forall r t, In t (rel_of d' r) ->
+     In t (rel_of d r) \/ exists c ts, In c cs /\ c_rel c = r /\ fire_clause d0 c = Ok ts /\ In t ts) /\
+  (forall r, ~ In r (defined_in cs) -> rel_of d' r = rel_of d r) /\
+  (db_nodup d -> db_nodup d') /\
+  (ch = true -> ch' = true) /\
+  (ch' = false -> d' = d /\ forall c, In c cs ->
+     exists ts, fire_clause d0 c = Ok ts /\ forall t, In t ts -> In t (rel_of d (c_rel c))).
+Proof.
+  induction cs as [|c cs IH]; intros d ch d' ch' H; simpl in H.
+  - inversion H; subst. split; [intros r t; auto|]. split; [auto|]. split; [auto|]. split; [auto|]. split; [auto|].
+    intros _. split; [reflexivity|intros c []].
+  - apply bind_ok in H as (ts & Hts & H). destruct (add_new d (c_rel c) ts ch) as [d1 ch1] eqn:Ha.
+    apply add_new_spec in Ha as (A1 & A2 & A3 & A4 & A5).
+    apply IH in H as (R1 & R2 & R3 & R4 & R5 & R6).
+    split; [|split; [|split; [|split; [|split]]]].
+    + intros r t Ht. apply R1. unfold holds in *. destruct (Nat.eq_dec r (c_rel c)) as [->|Hn].
+      * apply A2. auto.
+      * rewrite (A1 r Hn). exact Ht.
+    + intros r t Ht. apply R2 in Ht as [Ht|(c' & ts' & Hc' & Hr' & Hf' & Ht')].
+      * destruct (Nat.eq_dec r (c_rel c)) as [->|Hn].
+        -- apply A2 in Ht as [Ht|Ht]; [auto|]. right. exists c, ts. simpl; auto.
+        -- rewrite (A1 r Hn) in Ht. auto.
+      * right. exists c', ts'. simpl; auto.
+    + intros r Hr. simpl in Hr. rewrite (R3 r); [apply A1|]; intro E; apply Hr; auto.
+    + intros Hnd. apply R4. intro r. destruct (Nat.eq_dec r (c_rel c)) as [->|Hn].
+      * apply A3, Hnd.
+      * rewrite (A1 r Hn). apply Hnd.
+    + intro Hc. auto.
+    + intro Hc. destruct (R6 Hc) as [-> R7].
+      assert (ch1 = false) as -> by (destruct ch1; [specialize (R5 eq_refl); congruence|reflexivity]).
+      destruct (A5 eq_refl) as [-> A6]. split; [reflexivity|].
+      intros c' [<-|Hc']; [exists ts; auto | auto].
+Qed.
+
+(** * Monotonicity of rule instances in the positive relations, and dependence on the negatively
+    read relations only through [lit_low] *)
+Lemma sat_slit_change (P N P' N' : interp) e l :
+  (forall r t, In r (slit_pos l) -> P r t -> P' r t) ->
+  (forall r t, In r (slit_neg l) -> N' r t -> N r t) ->
+  sat_slit P N e l -> sat_slit P' N' e l.
+Proof.
+  intros HP HN H. destruct l as [r args|r args|c a b]; simpl in *.
+  - apply sat_pos_inv in H as (t & Ht & Hd). econstructor; eauto.
+  - apply sat_neg_inv in H. constructor. intros (t & Ht & Hd). apply H. exists t. split; auto.
+  - apply sat_cmp_inv in H as (va & vb & Ha & Hb & Hc). econstructor; eauto.
+Qed.
+Lemma sat_slits_change (P N P' N' : interp) e ls :
+  (forall r t, In r (flat_map slit_pos ls) -> P r t -> P' r t) ->
+  (forall r t, In r (flat_map slit_neg ls) -> N' r t -> N r t) ->
+  Forall (sat_slit P N e) ls -> Forall (sat_slit P' N' e) ls.
+Proof.
+  intros HP HN H. induction H as [|l ls Hl _ IH]; constructor.
+  - eapply sat_slit_change; [| |exact Hl]; intros r t Hr; [apply HP|apply HN]; simpl; apply in_or_app; auto.
+  - apply IH; intros r t Hr; [apply HP|apply HN]; simpl; apply in_or_app; auto.
+Qed.
+
+Lemma enumerates_change (N N' : interp) outer V e body es :
+  (forall r t, In r (flat_map (fun s => slit_pos s ++ slit_neg s) body) -> (N r t <-> N' r t)) ->
+  enumerates N outer V e body es -> enumerates N' outer V e body es.
+Proof.
+  intros HN (H1 & H2 & H3).
+  assert (Hp : forall r, In r (flat_map slit_pos body) -> In r (flat_map (fun s => slit_pos s ++ slit_neg s) body)).
+  { intros r Hr. apply in_flat_map in Hr as (s & Hs & Hr). apply in_flat_map. exists s. split; auto. apply in_or_app; auto. }
+  assert (Hn : forall r, In r (flat_map slit_neg body) -> In r (flat_map (fun s => slit_pos s ++ slit_neg s) body)).
+  { intros r Hr. apply in_flat_map in Hr as (s & Hs & Hr). apply in_flat_map. exists s. split; auto. apply in_or_app; auto. }
+  split; [|split; [|exact H3]].
+  - intros e' He'. destruct (H1 e' He') as (A & B & C). split; [exact A|]. split; [exact B|].
+    eapply sat_slits_change; [| |exact C]; intros r t Hr Ht; apply (HN r t); auto.
+  - intros s Hag Hs. apply H2; [exact Hag|].
+    eapply sat_slits_change; [| |exact Hs]; intros r t Hr Ht; apply (HN r t); auto.
+Qed.
+
+Lemma sat_lit_change (P N P' N' : interp) outer e l :
+  (forall r t, In r (lit_pos l) -> P r t -> P' r t) ->
+  (forall r t, In r (lit_low l) -> (N r t <-> N' r t)) ->
+  sat_lit P N outer e l -> sat_lit P' N' outer e l.
+Proof.
+  intros HP HN H. destruct l as [sl|x k t target body|x t from to step].
+  - apply sat_ls_inv in H. constructor. eapply sat_slit_change; [| |exact H]; simpl in *; auto.
+    intros r t Hr Ht. apply (HN r t); auto.
+  - apply sat_agg_inv in H as (es & zs & z & H1 & H2 & H3 & H4). econstructor; eauto.
+    eapply enumerates_change; eauto.
+  - apply sat_range_inv in H as (vf & vt & vs & zs & z & H1 & H2 & H3 & H4 & H5 & H6).
+    eapply SatRange; eauto.
+Qed.
+
+Lemma fires_change (P N P' N' : interp) c t :
+  (forall l r t, In l (c_body c) -> In r (lit_pos l) -> P r t -> P' r t) ->
+  (forall l r t, In l (c_body c) -> In r (lit_low l) -> (N r t <-> N' r t)) ->
+  fires P N c t -> fires P' N' c t.
+Proof.
+  intros HP HN (e & Hsat & Hd). exists e. split; [|exact Hd].
+  rewrite Forall_forall in *. intros l Hl. eapply sat_lit_change; [| |apply Hsat; exact Hl]; eauto.
+Qed.
+Lemma fires_mono (P P' N : interp) c t : isub P P' -> fires P N c t -> fires P' N c t.
+Proof. intros H. apply fires_change; [intros; apply H; auto | intros; tauto]. Qed.
+Lemma fires_ieq (P P' N N' : interp) c t : ieq P P' -> ieq N N' -> fires P N c t -> fires P' N' c t.
+Proof. intros H1 H2. apply fires_change; [intros; apply H1; auto | intros; apply H2]. Qed.
+
+(** * The least model of a stratum *)
+Lemma least_model_lower lower cs : isub lower (least_model lower cs).
+Proof. intros r t H I HI _. auto. Qed.
+Lemma least_model_least lower cs I : isub lower I -> closed I lower cs -> isub (least_model lower cs) I.
+Proof. intros H1 H2 r t H. apply H; auto. Qed.
+Lemma least_model_closed lower cs : closed (least_model lower cs) lower cs.
+Proof.
+  intros c t Hc Hf I HI Hcl. apply Hcl; [exact Hc|].
+  eapply fires_mono; [|exact Hf]. now apply least_model_least.
+Qed.
+Theorem least_model_is_least lower cs : is_least lower cs (least_model lower cs).
+Proof.
+  split; [apply least_model_lower|]. split; [apply least_model_closed|]. intros I. apply least_model_least.
+Qed.
+(** any two least models have the same tuples *)
+Theorem is_least_unique lower cs M M' : is_least lower cs M -> is_least lower cs M' -> ieq M M'.
+Proof. intros (A & B & C) (A' & B' & C') r t. split; [apply C | apply C']; auto. Qed.
+
+(** the inductive presentation (derivations) defines the same interpretation *)
+Theorem derived_least_model lower cs : ieq (derived lower cs) (least_model lower cs).
+Proof.
+  intros r t. split.
+  - intro H. intros I HI Hcl. revert r t H.
+    fix IH 3. intros r t H. destruct H as [r t H|c t Hc (e & Hsat & Hd)]; [now apply HI|].
+    apply Hcl; [exact Hc|]. exists e. split; [|exact Hd]. clear Hd.
+    induction Hsat as [|l ls Hl _ IHls]; constructor; [|exact IHls].
+    destruct Hl as [s Hs|x k ty target body es zs z H1 H2 H3 H4|x ty from to step vf vt vs zs z H1 H2 H3 H4 H5 H6].
+    + constructor. destruct Hs as [r args t' Ht' Hd|r args Hn|cm a b va vb Ha Hb Hc'].
+      * econstructor; [apply IH; exact Ht'|exact Hd].
+      * constructor; exact Hn.
+      * econstructor; eauto.
+    + econstructor; eauto.
+    + eapply SatRange; eauto.
+  - intro H. apply H.
+    + intros r' t' Hl. now constructor.
+    + intros c t' Hc Hf. now apply DerRule.
+Qed.
+
+(** * (f) The fixpoint iteration of one stratum *)
+Lemma clauses_ok_in cs c : clauses_ok cs = true -> In c cs -> clause_ok c = true.
+Proof. unfold clauses_ok. rewrite forallb_forall. auto. Qed.
+
+Lemma iterate_spec fuel cs lower :
+  stratum_ok cs -> clauses_ok cs = true -> forall d n d' n',
+  iterate fuel d cs n = Ok (Some (d', n')) -> db_nodup d ->
+  isub (holds d) (least_model lower cs) ->
+  (forall r, ~ In r (defined_in cs) -> forall t, holds d r t <-> lower r t) ->
+  isub (holds d) (holds d') /\ isub (holds d') (least_model lower cs) /\ db_nodup d' /\
+  (forall r, ~ In r (defined_in cs) -> rel_of d' r = rel_of d r) /\
+  round_clauses d' d' cs false = Ok (d', false).
+Proof.
+  intros Hst Hok. induction fuel as [|f IH]; intros d n d' n' H Hnd Hsub Hlow; simpl in H; [discriminate|].
+  apply bind_ok in H as ([d1 ch] & Hr & H).
+  pose proof (round_spec _ _ _ _ _ _ Hr) as (R1 & R2 & R3 & R4 & R5 & R6).
+  destruct ch.
+  - assert (Hsub1 : isub (holds d1) (least_model lower cs)).
+    { intros r t Ht. apply R2 in Ht as [Ht|(c & ts & Hc & <- & Hf & Ht)]; [now apply Hsub|].
+      apply least_model_closed; [exact Hc|].
+      apply (fires_mono (holds d)); [exact Hsub|].
+      apply (fires_change (holds d) (holds d)); [auto| |].
+      - intros l r t' Hl Hr'. apply Hlow. eapply Hst; eauto.
+      - eapply fire_clause_sound; eauto using clauses_ok_in. }
+    assert (Hlow1 : forall r, ~ In r (defined_in cs) -> forall t, holds d1 r t <-> lower r t).
+    { intros r Hr' t. unfold holds. rewrite (R3 r Hr'). now apply Hlow. }
+    destruct (IH _ _ _ _ H (R4 Hnd) Hsub1 Hlow1) as (I1 & I2 & I3 & I4 & I5).
+    split; [intros r t Ht; apply I1, R1, Ht|]. split; [exact I2|]. split; [exact I3|]. split; [|exact I5].
+    intros r Hr'. rewrite (I4 r Hr'). now apply R3.
+  - inversion H; subst. destruct (R6 eq_refl) as [-> _].
+    split; [intros r t; auto|]. split; [exact Hsub|]. split; [exact Hnd|]. split; [auto|exact Hr].
+Qed.
+
+Lemma clauses_det_in cs c : forallb clause_det cs = true -> In c cs -> clause_det c = true.
+Proof. rewrite forallb_forall. auto. Qed.
+
+(** a database on which a round adds nothing is closed under the rules *)
+Lemma round_fix_closed d cs :
+  db_nodup d -> clauses_ok cs = true -> forallb clause_det cs = true ->
+  round_clauses d d cs false = Ok (d, false) -> closed (holds d) (holds d) cs.
+Proof.
+  intros Hnd Hok Hdet H c t Hc Hf. apply round_spec in H as (_ & _ & _ & _ & _ & R6).
+  destruct (R6 eq_refl) as [_ R7]. destruct (R7 c Hc) as (ts & Hts & Hin). apply Hin.
+  eapply fire_clause_complete; eauto using clauses_ok_in, clauses_det_in.
+Qed.
+
+Theorem iterate_fixpoint fuel d cs d' n :
+  stratum_ok cs -> clauses_ok cs = true -> forallb clause_det cs = true -> db_nodup d ->
+  iterate fuel d cs 0 = Ok (Some (d', n)) ->
+  isub (holds d) (holds d') /\
+  closed (holds d') (holds d') cs /\
+  (forall r t, holds d' r t <-> least_model (holds d) cs r t) /\
+  db_nodup d' /\
+  (forall r, ~ In r (defined_in cs) -> rel_of d' r = rel_of d r).
+Proof.
+  intros Hst Hok Hdet Hnd H.
+  destruct (iterate_spec fuel cs (holds d) Hst Hok d 0%nat d' n H Hnd) as (I1 & I2 & I3 & I4 & I5).
+  { apply least_model_lower. }
+  { intros; tauto. }
+  pose proof (round_fix_closed d' cs I3 Hok Hdet I5) as Hcl.
+  split; [exact I1|]. split; [exact Hcl|]. split; [|split; [exact I3|exact I4]].
+  intros r t. split; [apply I2|]. apply least_model_least; [exact I1|].
+  intros c t' Hc Hf. apply Hcl; [exact Hc|].
+  apply (fires_change (holds d') (holds d)); [auto| |exact Hf].
+  intros l r' t'' Hl Hr'. unfold holds. rewrite (I4 r'); [tauto|]. eapply Hst; eauto.
+Qed.
+
+(** * (g) Whole programs *)
+Lemma ieq_refl I : ieq I I.
+Proof. intros r t; tauto. Qed.
+Lemma ieq_sym I J : ieq I J -> ieq J I.
+Proof. intros H r t. symmetry. apply H. Qed.
+Lemma ieq_trans I J K : ieq I J -> ieq J K -> ieq I K.
+Proof. intros H1 H2 r t. rewrite (H1 r t). apply H2. Qed.
+
+Lemma is_least_ieq_lower L L' cs M : ieq L L' -> is_least L cs M -> is_least L' cs M.
+Proof.
+  intros He (A & B & C). split; [|split].
+  - intros r t H. apply A, He, H.
+  - intros c t Hc Hf. apply B; [exact Hc|]. eapply fires_ieq; [apply ieq_refl|apply ieq_sym; exact He|exact Hf].
+  - intros I HI Hcl. apply C.
+    + intros r t H. apply HI, He, H.
+    + intros c t Hc Hf. apply Hcl; [exact Hc|]. eapply fires_ieq; [apply ieq_refl|exact He|exact Hf].
+Qed.
+Lemma is_least_ieq L cs M M' : ieq M M' -> is_least L cs M -> is_least L cs M'.
+Proof.
+  intros He (A & B & C). split; [|split].
+  - intros r t H. apply He, A, H.
+  - intros c t Hc Hf. apply He, B; [exact Hc|]. eapply fires_ieq; [apply ieq_sym; exact He|apply ieq_refl|exact Hf].
+  - intros I HI Hcl r t H. apply (C I HI Hcl). apply He, H.
+Qed.
+Lemma least_model_ieq L L' cs : ieq L L' -> ieq (least_model L cs) (least_model L' cs).
+Proof.
+  intro He. apply (is_least_unique L' cs); [|apply least_model_is_least].
+  eapply is_least_ieq_lower; [exact He|apply least_model_is_least].
+Qed.
+Lemma strat_model_ieq ss : forall L L', ieq L L' -> ieq (strat_model L ss) (strat_model L' ss).
+Proof. induction ss as [|cs ss IH]; intros L L' He; simpl; [exact He|]. apply IH. now apply least_model_ieq. Qed.
+
+Lemma is_strat_model_ieq_lower ss : forall L L' M, ieq L L' -> is_strat_model L ss M -> is_strat_model L' ss M.
+Proof.
+  induction ss as [|cs ss IH]; intros L L' M He H; simpl in *.
+  - eapply ieq_trans; [apply ieq_sym; exact He|exact H].
+  - destruct H as (mid & H1 & H2). exists mid. split; [|exact H2]. eapply is_least_ieq_lower; eauto.
+Qed.
+Lemma is_strat_model_ieq ss : forall L M M', ieq M M' -> is_strat_model L ss M -> is_strat_model L ss M'.
+Proof.
+  induction ss as [|cs ss IH]; intros L M M' He H; simpl in *.
+  - eapply ieq_trans; eauto.
+  - destruct H as (mid & H1 & H2). exists mid. split; [exact H1|]. eapply IH; eauto.
+Qed.
+(** the recursive definition meets the specification *)
+Theorem strat_model_spec ss : forall L, is_strat_model L ss (strat_model L ss).
+Proof.
+  induction ss as [|cs ss IH]; intro L; simpl; [apply ieq_refl|].
+  exists (least_model L cs). split; [apply least_model_is_least|apply IH].
+Qed.
+(** ... and the specification has only one solution: this is what lets every backend and every
+    configuration be compared with the single oracle *)
+Theorem least_model_unique ss : forall L M M',
+  is_strat_model L ss M -> is_strat_model L ss M' -> ieq M M'.
+Proof.
+  induction ss as [|cs ss IH]; intros L M M' H H'; simpl in *.
+  - eapply ieq_trans; [apply ieq_sym; exact H|exact H'].
+  - destruct H as (mid & H1 & H2), H' as (mid' & H1' & H2').
+    apply (IH mid); [exact H2|]. eapply is_strat_model_ieq_lower; [|exact H2'].
+    eapply is_least_unique; eauto.
+Qed.
+Corollary stratified_model_unique_db edb ss d d' :
+  is_strat_model (holds edb) ss (holds d) -> is_strat_model (holds edb) ss (holds d') ->
+  forall r t, In t (rel_of d r) <-> In t (rel_of d' r).
+Proof. intros H H'. exact (least_model_unique ss _ _ _ H H'). Qed.
+
+Lemma strata_ok_cons earlier cs ss :
+  strata_ok earlier (cs :: ss) = true -> stratum_ok cs /\ strata_ok (earlier ++ defined_in cs) ss = true.
+Proof.
+  simpl. intro H. apply andb_true_iff in H as [H H3]. apply andb_true_iff in H as [H1 _].
+  split; [|exact H3]. intros c l r Hc Hl Hr Hin.
+  rewrite forallb_forall in H1. specialize (H1 c Hc). rewrite forallb_forall in H1. specialize (H1 l Hl).
+  apply andb_true_iff in H1 as [H1 _]. rewrite forallb_forall in H1. specialize (H1 r Hr).
+  apply andb_true_iff in H1 as [H1 _]. apply memb_in in Hin. rewrite Hin in H1. discriminate.
+Qed.
+
+Lemma eval_strata_spec fuel ss : forall d rounds earlier d' rs,
+  strata_ok earlier ss = true -> program_ok ss = true -> program_det ss = true -> db_nodup d ->
+  eval_strata fuel d ss rounds = Ok (Some (d', rs)) ->
+  ieq (holds d') (strat_model (holds d) ss) /\ db_nodup d'.
+Proof.
+  induction ss as [|cs ss IH]; intros d rounds earlier d' rs Hst Hok Hdet Hnd H; simpl in H.
+  - inversion H; subst. split; [apply ieq_refl|exact Hnd].
+  - apply bind_ok in H as (o & Ho & H). destruct o as [[d1 n]|]; [|discriminate].
+    apply strata_ok_cons in Hst as [Hs1 Hst]. simpl in Hok, Hdet.
+    apply andb_true_iff in Hok as [Hok1 Hok]. apply andb_true_iff in Hdet as [Hdet1 Hdet].
+    destruct (iterate_fixpoint _ _ _ _ _ Hs1 Hok1 Hdet1 Hnd Ho) as (_ & _ & I3 & I4 & _).
+    destruct (IH _ _ _ _ _ Hst Hok Hdet I4 H) as (J1 & J2). split; [|exact J2].
+    simpl. eapply ieq_trans; [exact J1|]. apply strat_model_ieq. exact I3.
+Qed.
+
+(** (g) the database computed by [run_program] is the stratified model: no derivable tuple is
+    missing, no underivable tuple is present, no tuple appears twice *)
+Theorem run_program_correct fuel edb ss d rounds :
+  program_ok ss = true -> program_det ss = true -> db_nodup edb ->
+  run_program fuel edb ss = Ok (Some (d, rounds)) ->
+  (forall r t, In t (rel_of d r) <-> strat_model (holds edb) ss r t) /\
+  (forall r, NoDup (rel_of d r)) /\
+  is_strat_model (holds edb) ss (holds d).
+Proof.
+  intros Hok Hdet Hnd H. unfold run_program in H. destruct (strata_ok [] ss) eqn:Hst; [|discriminate].
+  destruct (eval_strata_spec _ _ _ _ _ _ _ Hst Hok Hdet Hnd H) as (J1 & J2).
+  split; [exact J1|]. split; [exact J2|].
+  eapply is_strat_model_ieq; [apply ieq_sym; exact J1|apply strat_model_spec].
+Qed.
+
+(** * (h) Aggregates over an empty solution set *)
+Definition no_solution (N : interp) (outer : list nat) (e : env) (target : term) (body : list slit) : Prop :=
+  forall s, agrees_on (term_vars target ++ slits_vars body) outer e s -> ~ Forall (sat_slit N N s) body.
+
+Lemma enumerates_empty N outer e target body es :
+  no_solution N outer e target body ->
+  enumerates N outer (term_vars target ++ slits_vars body) e body es -> es = [].
+Proof.
+  intros Hno (H1 & _ & _). destruct es as [|a es]; [reflexivity|]. exfalso.
+  destruct (H1 a (or_introl eq_refl)) as (Hag & _ & Hsat). exact (Hno a Hag Hsat).
+Qed.
+Lemma enumerates_nil N outer e target body :
+  no_solution N outer e target body ->
+  enumerates N outer (term_vars target ++ slits_vars body) e body [].
+Proof.
+  intro Hno. split; [intros e' []|]. split; [|constructor].
+  intros s Hag Hsat. exfalso. exact (Hno s Hag Hsat).
+Qed.
+
+(** count and sum over no solution are satisfied exactly by the value 0 (so the rule fires with
+    0); min and max over no solution are never satisfied (the rule does not fire) *)
+Theorem agg_empty_rule P N outer e x k t target body :
+  no_solution N outer e target body ->
+  match k with
+  | ACount | ASum => sat_lit P N outer e (LAgg x k t target body) <-> lookup e x = Some (VNum 0)
+  | AMin | AMax => ~ sat_lit P N outer e (LAgg x k t target body)
+  end.
+Proof.
+  intro Hno.
+  assert (Hinv : sat_lit P N outer e (LAgg x k t target body) ->
+                 exists zs z, targets k target [] zs /\ agg_of k t zs z /\ lookup e x = Some (VNum z)).
+  { intro H. apply sat_agg_inv in H as (es & zs & z & H1 & H2 & H3 & H4).
+    apply (enumerates_empty _ _ _ _ _ _ Hno) in H1. subst. eauto. }
+  destruct k.
+  - split.
+    + intro H. apply Hinv in H as (zs & z & H2 & H3 & H4). simpl in *.
+      destruct zs; [|discriminate]. destruct t; simpl in H3; subst; exact H4.
+    + intro H. apply (SatAgg _ _ _ _ x ACount t target body [] [] 0); auto using enumerates_nil.
+      * reflexivity.
+      * destruct t; reflexivity.
+  - split.
+    + intro H. apply Hinv in H as (zs & z & H2 & H3 & H4). simpl in H2. inversion H2; subst.
+      destruct t; simpl in H3; subst; exact H4.
+    + intro H. apply (SatAgg _ _ _ _ x ASum t target body [] [] 0); auto using enumerates_nil.
+      * constructor.
+      * destruct t; reflexivity.
+  - intro H. apply Hinv in H as (zs & z & H2 & H3 & H4). simpl in H2. inversion H2; subst.
+    destruct t; simpl in H3; destruct H3 as [[] _].
+  - intro H. apply Hinv in H as (zs & z & H2 & H3 & H4). simpl in H2. inversion H2; subst.
+    destruct t; simpl in H3; destruct H3 as [[] _].
+Qed.
+
+(** the evaluator on an empty solution list: binds 0 for count / sum, yields nothing for min / max *)
+Theorem agg_empty_eval d e x k t target body :
+  solve_s d body [e] = Ok [] ->
+  step_lit d (LAgg x k t target body) e =
+  Ok (match k with ACount | ASum => bind_var e x (VNum 0) | AMin | AMax => [] end).
+Proof. intro H. cbn [step_lit]. rewrite H. destruct k, t; reflexivity. Qed.
+
+(** * A checkable form of [db_nodup] *)
+Fixpoint nodupb (l : list tuple) : bool :=
+  match l with [] => true | x :: l' => negb (mem_tuple x l') && nodupb l' end.
+Lemma nodupb_spec l : nodupb l = true -> NoDup l.
+Proof.
+  induction l as [|x l IH]; simpl; intro H; constructor; apply andb_true_iff in H as [H1 H2]; auto.
+  intro Hin. apply mem_tuple_spec in Hin. rewrite Hin in H1. discriminate.
+Qed.
+Lemma db_nodup_check d : forallb (fun p => nodupb (snd p)) d = true -> db_nodup d.
+Proof.
+  intros H r. induction d as [|[r' ts] d IH]; simpl; [constructor|].
+  simpl in H. apply andb_true_iff in H as [H1 H2]. destruct (Nat.eqb r r'); [now apply nodupb_spec|auto].
+Qed.
+
+(** * (i) Examples: a three-stratum program with recursion, negation and an aggregate with empty
+    groups.  Relations: 0 edge, 1 node, 2 path, 3 unreach, 4 cnt.
+      path(x,y) :- edge(x,y).           path(x,z) :- path(x,y), edge(y,z).
+      unreach(x,y) :- node(x), node(y), !path(x,y).
+      cnt(x,c) :- node(x), c = count : { path(x,y) }. *)
+Definition ex_s1 : list clause :=
+  [ {| c_rel := 2; c_args := [TVar 0; TVar 1]; c_body := [LS (SPos 0 [TVar 0; TVar 1])] |};
+    {| c_rel := 2; c_args := [TVar 0; TVar 2];
+       c_body := [LS (SPos 2 [TVar 0; TVar 1]); LS (SPos 0 [TVar 1; TVar 2])] |} ].
+Definition ex_s2 : list clause :=
+  [ {| c_rel := 3; c_args := [TVar 0; TVar 1];
+       c_body := [LS (SPos 1 [TVar 0]); LS (SPos 1 [TVar 1]); LS (SNeg 2 [TVar 0; TVar 1])] |} ].
+Definition ex_cnt : clause :=
+  {| c_rel := 4; c_args := [TVar 0; TVar 1];
+     c_body := [LS (SPos 1 [TVar 0]); LAgg 1 ACount TS (TConst (VNum 0)) [SPos 2 [TVar 0; TVar 2]]] |}.
+Definition ex_s3 : list clause := [ex_cnt].
+Definition ex_prog := [ex_s1; ex_s2; ex_s3].
+Definition ex_edb : db :=
+  [ (0%nat, [[VNum 1; VNum 2]; [VNum 2; VNum 3]]); (1%nat, [[VNum 1]; [VNum 2]; [VNum 3]; [VNum 4]]) ].
+Definition ex_path : list tuple := [[VNum 1; VNum 2]; [VNum 2; VNum 3]; [VNum 1; VNum 3]].
+Definition ex_mid : db := ex_edb ++ [(2%nat, ex_path)].
+Definition ex_out : db :=
+  ex_mid ++
+  [ (3%nat, [[VNum 1; VNum 1]; [VNum 1; VNum 4]; [VNum 2; VNum 1]; [VNum 2; VNum 2]; [VNum 2; VNum 4];
+             [VNum 3; VNum 1]; [VNum 3; VNum 2]; [VNum 3; VNum 3]; [VNum 3; VNum 4];
+             [VNum 4; VNum 1]; [VNum 4; VNum 2]; [VNum 4; VNum 3]; [VNum 4; VNum 4]]);
+    (4%nat, [[VNum 1; VNum 2]; [VNum 2; VNum 1]; [VNum 3; VNum 0]; [VNum 4; VNum 0]]) ].
+
+Example ex_run : run_program 10 ex_edb ex_prog = Ok (Some (ex_out, [2; 1; 1]%nat)).
+Proof. vm_compute. reflexivity. Qed.
+Example ex_program_ok : program_ok ex_prog = true /\ program_det ex_prog = true.
+Proof. vm_compute. auto. Qed.
+Example ex_edb_nodup : db_nodup ex_edb.
+Proof. apply db_nodup_check. vm_compute. reflexivity. Qed.
+(** hence (instance of [run_program_correct]): the computed database is the stratified model;
+    node 3 and node 4 have no outgoing path and get count 0 *)
+Example ex_model :
+  (forall r t, In t (rel_of ex_out r) <-> strat_model (holds ex_edb) ex_prog r t) /\
+  (forall r, NoDup (rel_of ex_out r)) /\ is_strat_model (holds ex_edb) ex_prog (holds ex_out).
+Proof.
+  apply (run_program_correct 10 ex_edb ex_prog ex_out [2; 1; 1]%nat);
+    [apply ex_program_ok | apply ex_program_ok | apply ex_edb_nodup | apply ex_run].
+Qed.
+Example ex_cnt_empty_group : strat_model (holds ex_edb) ex_prog 4%nat [VNum 4; VNum 0].
+Proof. apply ex_model. vm_compute. auto. Qed.
+
+(** hypotheses of [iterate_fixpoint] on the recursive stratum *)
+Example ex_stratum_ok : stratum_ok ex_s1.
+Proof. apply (strata_ok_cons [] ex_s1 [ex_s2; ex_s3]). vm_compute. reflexivity. Qed.
+Example ex_iterate : iterate 10 ex_edb ex_s1 0 = Ok (Some (ex_mid, 2%nat)).
+Proof. vm_compute. reflexivity. Qed.
+Example ex_iterate_fixpoint :
+  closed (holds ex_mid) (holds ex_mid) ex_s1 /\
+  (forall r t, holds ex_mid r t <-> least_model (holds ex_edb) ex_s1 r t).
+Proof.
+  destruct (iterate_fixpoint 10 ex_edb ex_s1 ex_mid 2 ex_stratum_ok) as (_ & H2 & H3 & _);
+    auto using ex_edb_nodup, ex_iterate.
+Qed.
+
+(** hypotheses of [solve_sound] / [solve_complete] / [fire_clause_spec] on the aggregate clause *)
+Example ex_mid_nodup : db_nodup ex_mid.
+Proof. apply db_nodup_check. vm_compute. reflexivity. Qed.
+Example ex_solve :
+  solve ex_mid (c_body ex_cnt) [[]] =
+  Ok [ [(1%nat, VNum 2); (0%nat, VNum 1)]; [(1%nat, VNum 1); (0%nat, VNum 2)];
+       [(1%nat, VNum 0); (0%nat, VNum 3)]; [(1%nat, VNum 0); (0%nat, VNum 4)] ].
+Proof. vm_compute. reflexivity. Qed.
+Example ex_solve_sound :
+  Forall (sat_lit (holds ex_mid) (holds ex_mid) (clause_outer ex_cnt) [(1%nat, VNum 0); (0%nat, VNum 4)])
+         (c_body ex_cnt).
+Proof.
+  eapply (solve_sound ex_mid (clause_outer ex_cnt) (c_body ex_cnt) []); eauto using ex_mid_nodup, ex_solve.
+  - apply clause_outer_incl.
+  - intros y Hy. now apply bound_nil in Hy.
+  - simpl. auto.
+Qed.
+Example ex_fire_clause : forall t,
+  In t [[VNum 1; VNum 2]; [VNum 2; VNum 1]; [VNum 3; VNum 0]; [VNum 4; VNum 0]] <->
+  fires (holds ex_mid) (holds ex_mid) ex_cnt t.
+Proof. apply fire_clause_spec; auto using ex_mid_nodup. Qed.
+
+(** [match_term]: a record pattern with a bound and an unbound variable *)
+Example ex_match :
+  match_term [(0%nat, VNum 7)] (TRecord [TVar 0; TVar 1]) (VRec [VNum 7; VSym [65%N]]) =
+  Ok (Some [(1%nat, VSym [65%N]); (0%nat, VNum 7)]) /\
+  match_term [(0%nat, VNum 7)] (TRecord [TVar 0; TVar 1]) (VRec [VNum 8; VSym [65%N]]) = Ok None.
+Proof. vm_compute. auto. Qed.
+
+(** [agg_empty_rule]: node 4 has no path; the count literal is satisfied with 0, a [min] is not *)
+Example ex_no_solution :
+  no_solution (holds ex_mid) (clause_outer ex_cnt) [(1%nat, VNum 0); (0%nat, VNum 4)]
+              (TConst (VNum 0)) [SPos 2 [TVar 0; TVar 2]].
+Proof.
+  intros s Hag Hsat. inversion Hsat as [|l ls Hl _]; subst. apply sat_pos_inv in Hl as (t & Ht & Hd).
+  assert (H0 : lookup s 0%nat = Some (VNum 4)) by (apply (Hag 0%nat); simpl; auto).
+  inversion Hd as [|a v ps vs Ha Hd']; subst. inversion Ha; subst.
+  assert (v = VNum 4) by congruence. subst v.
+  unfold holds in Ht. simpl in Ht. unfold ex_path in Ht. simpl in Ht.
+  repeat (destruct Ht as [Ht|Ht]; [discriminate Ht|]). exact Ht.
+Qed.
+Example ex_agg_empty :
+  sat_lit (holds ex_mid) (holds ex_mid) (clause_outer ex_cnt) [(1%nat, VNum 0); (0%nat, VNum 4)]
+          (LAgg 1 ACount TS (TConst (VNum 0)) [SPos 2 [TVar 0; TVar 2]]) /\
+  ~ sat_lit (holds ex_mid) (holds ex_mid) (clause_outer ex_cnt) [(1%nat, VNum 0); (0%nat, VNum 4)]
+          (LAgg 1 AMin TS (TConst (VNum 0)) [SPos 2 [TVar 0; TVar 2]]).
+Proof.
+  split.
+  - apply (agg_empty_rule _ _ _ _ 1%nat ACount TS _ _ ex_no_solution). reflexivity.
+  - apply (agg_empty_rule _ _ _ _ 1%nat AMin TS _ _ ex_no_solution).
+Qed.
+
+(** A finding about the evaluator, shown on an instance: an aggregate placed *before* the literal
+    that binds one of its outer variables is not reported as [Stuck]; it silently aggregates over
+    all values of that variable.  q(y,c) :- c = count : { r(y) }, s(y).  with r = {1,2,3}, s = {1}
+    yields c = 3 in this order and c = 1 with the aggregate last.  The static condition [scoped]
+    (hypothesis of all the theorems) rejects the first order. *)
+Definition ex_bad_body : list lit := [LAgg 1 ACount TS (TConst (VNum 0)) [SPos 0 [TVar 0]]; LS (SPos 1 [TVar 0])].
+Definition ex_good_body : list lit := [LS (SPos 1 [TVar 0]); LAgg 1 ACount TS (TConst (VNum 0)) [SPos 0 [TVar 0]]].
+Definition ex_rs : db := [(0%nat, [[VNum 1]; [VNum 2]; [VNum 3]]); (1%nat, [[VNum 1]])].
+Example ex_agg_order_matters :
+  solve ex_rs ex_bad_body [[]] = Ok [[(0%nat, VNum 1); (1%nat, VNum 3)]] /\
+  solve ex_rs ex_good_body [[]] = Ok [[(1%nat, VNum 1); (0%nat, VNum 1)]] /\
+  scoped [0; 1]%nat [] ex_bad_body = false /\ scoped [0; 1]%nat [] ex_good_body = true.
+Proof. vm_compute. auto. Qed.
+
+(* NOT PROVED:
+   - Aggregates whose body has [_] (TAnon) inside a positive atom: there Souffle and the evaluator
+     count matched tuples, while [enumerates] counts distinct assignments; the theorems require
+     [agg_body_ok] (part of [clause_ok]). A multiset-of-tuples formulation would be needed.
+   - Completeness (hence closure under the rules, hence everything about a later stratum) for
+     [min]/[max] aggregates at unsigned type ([lit_det]): [umin]/[umax] on numbers outside the 32-bit
+     range depend on the enumeration order (two representatives of the same unsigned value tie).
+     Soundness of [solve] / [fire_clause] holds for them ([solve_sound], [fire_clause_sound]).
+   - [mean] aggregates and float functors are not in DatalogDefs.v, so nothing is stated about them.
+   - That the final database is a model in the one-database reading (closed under every rule with
+     negation read in the final database itself) is not stated separately; it follows from
+     [run_program_correct] and [strata_ok] but was not written out.
+   - Termination: nothing is proved about the fuel; the theorems speak about runs that return
+     [Ok (Some _)]. *)
